@@ -415,6 +415,11 @@ class _Subst(ast.NodeTransformer):
     d = ds[0]
     if any(isinstance(x, (ast.Yield, ast.Await)) for x in ast.walk(d)):
       return n
+    # `node = self.generic_visit(node)` / `x = self.visit(x)` keep the identity
+    if isinstance(d, ast.Call) and isinstance(d.func, ast.Attribute) and \
+        d.func.attr in ('generic_visit', 'visit') and len(d.args) == 1 and \
+        isinstance(d.args[0], ast.Name) and d.args[0].id == n.id:
+      return n
     sub = _Subst(self.fi, d, self.depth - 1, self.bound)
     import copy
     return sub.visit(copy.deepcopy(d))
